@@ -16,3 +16,4 @@ void reg_fs();
 void reg_proxy();
 void reg_life();
 void reg_lifed();
+void reg_tls();
